@@ -25,6 +25,7 @@ import RuxModel.Generated.Facts
                                  cursor, params, data, trace, response, stack and finality.
       C03_independent_done       once the solo run has finished after k steps, every schedule that gives the
                                  request at least k steps leaves it in EXACTLY that final state.
+      C03_advance_is_steps       the macro step of the harness scheduler (`adv`) is a sequence of atomic steps.
   * "executes exactly the handler chain / sees exactly the parameters / produces exactly the response"
       are components of the local state (ctx.chain, trace with enter events, ctx.params and the params
       events, outStatus/body/allowHdr), so they are covered by the four theorems above.
@@ -118,6 +119,13 @@ theorem C03_independent_done (cfg : Cfg) (sh : Shared) (hc : Cache.Coherent cfg.
     rw [← norm_isFinal, h1]; exact hfin
   rw [norm_of_final _ hfin', norm_of_final _ hsolo] at h1
   exact h1
+
+/-- what the deterministic scheduler of the harness does in one `adv` (release a request until its next park or
+    its end) is a finite sequence of atomic steps of that request: the schedules the correspondence engine
+    can realise are schedules of the theorem above -/
+theorem C03_advance_is_steps (cfg : Cfg) (fuel : Nat) (sh : Shared) (l : Local) :
+    ∃ k, advance cfg fuel sh l = stepN cfg k (sh, l) :=
+  advance_steps cfg fuel sh l
 
 /-! ### the shared state -/
 
